@@ -110,6 +110,25 @@ def commands(common, subs):
 _counter = [0]
 
 
+def commands_named(common, subs):
+    """commands built from NAMED, non-const lvalue parsers - and built a second time from the same objects: make_commands
+    takes forwarding references, an lvalue argument is copied and stays what it was"""
+    _counter[0] += 1
+    k = _counter[0]
+    alpha, _, pre = merge([common] + [s[2] for s in subs])
+    pre += '  auto named_common_%d{%s};\n' % (k, common.cpp)
+    names = []
+    for i, (name, tag, p) in enumerate(subs):
+        pre += '  auto named_sub_%d_%d{o::make_sub_command<%s>("%s", %s, o::optional_help_text{})};\n' % (k, i, tag, name, p.cpp)
+        names.append('named_sub_%d_%d' % (k, i))
+    args = ', '.join(['named_common_%d' % k] + names)
+    pre += '  auto const first_construction_%d{o::make_commands(%s)};\n  (void)first_construction_%d;\n' % (k, args, k)
+    cpp = 'o::make_commands(%s)' % args
+    spec = 'commands(%s, {%s}, {%s}, {%s})' % (common.spec, ', '.join('"%s"' % s[0] for s in subs),
+                                               ', '.join('"%s"' % s[1] for s in subs), ', '.join(s[2].spec for s in subs))
+    return P(cpp, spec, alpha + [s[0] for s in subs], ['options', 'sub'], pre)
+
+
 def base(a):
     """type-erased through options::make_base (a unique_ptr to options::base<Result>)"""
     return P('o::make_base<o::result_of<decltype(%s)>>(%s)' % (a.cpp, a.cpp), a.spec, a.alpha, a.labels, a.pre)
@@ -185,6 +204,8 @@ def shapes():
          commands(sw('lb', 'v', 'verbose'), [('c1', 't1', prod(A(), opt('ld', 'p', 'port', 'Str'))), ('c2', 't2', prod(many(A('le', 'Str')), opt_o()))])),
         ('commands(option_default;c1:prod(arg_s,option_s,switch))',
          commands(optd(), [('c1', 't1', prod(A('la', 'Str'), opt_o('lc', 'Str'), sw_f()))])),
+        ('commands-from-named-lvalues(option;c1:prod(arg,option_p);c2:switch)/second-construction',
+         commands_named(opt_o(), [('c1', 't1', prod(A(), opt('ld', 'p', 'port', 'Str'))), ('c2', 't2', sw('lf', 'f', 'flag'))])),
         ('prod(base(arg),switch)', prod(base(A()), sw_f())),
         ('optional(base(prod(arg,option)))', optional(base(prod(A(), opt_o())))),
         ('prod(cref(option),cref(arg))', prod(cref(opt_o()), cref(A()))),
